@@ -202,6 +202,30 @@ pub fn free_tcp_port(v6: bool) -> u16 {
     l.local_addr().expect("addr").port()
 }
 
+/// A port on which connections are refused for as long as the returned sockets live: they are bound (127.0.0.1 and [::1])
+/// but never listen, so nobody else - another shard process, another harness - can be handed the same port by the kernel
+/// while the run lasts (a released "free" port that a foreign listener picks up later answers instead of refusing).
+pub fn reserve_refusing_port() -> (u16, Vec<tokio::net::TcpSocket>) {
+    for _ in 0..50 {
+        let Ok(s4) = tokio::net::TcpSocket::new_v4() else { continue };
+        if s4.bind("127.0.0.1:0".parse().expect("addr")).is_err() {
+            continue;
+        }
+        let Ok(a) = s4.local_addr() else { continue };
+        let mut keep = vec![s4];
+        if let Ok(s6) = tokio::net::TcpSocket::new_v6() {
+            match s6.bind(std::net::SocketAddr::from((std::net::Ipv6Addr::LOCALHOST, a.port()))) {
+                Ok(()) => keep.push(s6),
+                // [::1]:port is taken by somebody else: try another port (no IPv6 at all: new_v6 or every bind fails, fall through below)
+                Err(e) if e.kind() == std::io::ErrorKind::AddrInUse => continue,
+                Err(_) => {}
+            }
+        }
+        return (a.port(), keep);
+    }
+    panic!("no refusing port could be reserved");
+}
+
 pub fn free_udp_port() -> u16 {
     let l = std::net::UdpSocket::bind("127.0.0.1:0").expect("bind");
     l.local_addr().expect("addr").port()
